@@ -58,7 +58,7 @@ func (k *Kernel) Select(hasDefault bool, cases []SelCase) int {
 //go:norace
 func (k *Kernel) RendezvousSend(id uintptr, v any) bool {
 	me := k.Me()
-	for _, o := range k.tasks {
+	for _, o := range k.live {
 		if o == me || o.State() != BlockedSelect || o.selFired >= 0 {
 			continue
 		}
@@ -78,7 +78,7 @@ func (k *Kernel) RendezvousSend(id uintptr, v any) bool {
 //go:norace
 func (k *Kernel) RendezvousRecv(id uintptr) (any, bool) {
 	me := k.Me()
-	for _, o := range k.tasks {
+	for _, o := range k.live {
 		if o == me || o.State() != BlockedSelect || o.selFired >= 0 {
 			continue
 		}
